@@ -476,6 +476,22 @@ def run_c09(tier_: str) -> int:
                 expect_miss("entity-type-not-a-member", fn, (api, vs[-1] + 1, bogus), (UE,))
             if api in key_of:
                 expect_miss("entity-type-not-a-member", index.load_payload_module, (key_of[api], vs[0], bogus), (UE,))
+    # versions and keys that are not integers at all (the statement says "arbitrary integers/strings"), and far-out versions with a valid key
+    odd_versions = ("12", "", None, 1.5, "latest", 2**40, -(2**40), 40000)
+    for api in apis[:: max(1, len(apis) // 10)]:
+        vs = sorted(set(versions_of[api]))
+        types_here = sorted({t for a, v, t in truth if a == api})
+        for ov in odd_versions:
+            for fn in fns_name:
+                expect_miss("version-not-an-int-or-far-out", fn, (api, ov, EntityType[types_here[0]]), (UE,))
+            if api in key_of:
+                expect_miss("version-not-an-int-or-far-out", index.load_request_schema, (key_of[api], ov), (UE,))
+                expect_miss("version-not-an-int-or-far-out", index.load_response_schema, (key_of[api], ov), (UE,))
+                expect_miss("version-not-an-int-or-far-out", index.load_payload_module, (key_of[api], ov, EntityType.request), (UE,))
+    for ok_ in ("3", "", None, 2.5, "metadata"):
+        expect_miss("key-not-an-int", index.load_request_schema, (ok_, 0), (UK,))
+        expect_miss("key-not-an-int", index.load_response_schema, (ok_, 0), (UK,))
+        expect_miss("key-not-an-int", index.load_payload_module, (ok_, 0, EntityType.request), (UK,))
     all_keys = sorted(keys)
     near_keys = [-1, all_keys[-1] + 1, all_keys[-1] + 2, -(2**15), 2**15, 2**31] + [k for k in range(all_keys[0], all_keys[-1]) if k not in keys]
     for k in near_keys:
@@ -638,8 +654,11 @@ def run_c13(tier_: str) -> int:
                 exp = _expected_pytype(fs.ktype)
                 row = f"{fs.ktype}->{exp.__name__}"
                 rows[row] = rows.get(row, 0) + 1
-                if not (isinstance(fs.pytype, type) and issubclass(fs.pytype, exp)):
-                    bad("type-mismatch", f"kafka_type {fs.ktype!r} does not match declared python type {fs.pytype!r} (expected {exp.__name__} or a subclass)")
+                # exactly the type that stands for the Kafka type, or one of the named entity types of kio.schema.types deriving *directly*
+                # from it.  (issubclass is not enough: the integer types nest, u8 < u16 < u32 < u64, so a narrower type would pass.)
+                exact = fs.pytype is exp or (isinstance(fs.pytype, type) and fs.pytype.__module__ == "kio.schema.types" and exp in fs.pytype.__bases__)
+                if not exact:
+                    bad("type-mismatch", f"kafka_type {fs.ktype!r} does not match declared python type {fs.pytype!r} (expected {exp.__name__} or an entity type derived directly from it)")
                 if fs.ktype == "uuid":
                     nullable_leaf = fs.item_nullable if fs.array else fs.nullable
                     if not nullable_leaf:
@@ -758,6 +777,35 @@ def run_c14(tier_: str) -> int:
     fam = walk.families()
     hdr = _header_classes()
     key_of_api: dict[str, set[int]] = {}
+    # the version packages kio.schema.<api>.v<N> (the documented import path) re-export exactly the top-level classes of their own leaf
+    # modules - not a class of another version, nothing missing, nothing else
+    by_pkg: dict[str, list] = {}
+    for m in walk.modules():
+        by_pkg.setdefault(m.name.rsplit(".", 1)[0], []).append(m)
+    for pkg_name, mods in sorted(by_pkg.items()):
+        res.count("version_packages")
+        try:
+            pkg = importlib.import_module(pkg_name)
+        except Exception as exc:  # noqa: BLE001
+            res.violation(f"package-import:{pkg_name}", f"{pkg_name} does not import: {exc!r}", {"package": pkg_name})
+            continue
+        want = {}
+        for m in mods:
+            for t in walk.top_level(m):
+                want[t.__name__] = t
+        bound = {k: v for k, v in vars(pkg).items() if isinstance(v, type) and dataclasses.is_dataclass(v)}
+        listed = set(getattr(pkg, "__all__", ()))
+        problems = []
+        for name, cls in want.items():
+            if bound.get(name) is not cls:
+                problems.append(f"{name} is {walk.class_path(bound[name]) if name in bound else 'missing'}, expected {walk.class_path(cls)}")
+        problems += [f"{name} ({walk.class_path(v)}) is not a top-level class of this version" for name, v in bound.items() if name not in want]
+        if listed != set(want):
+            problems.append(f"__all__ {sorted(listed)} != {sorted(want)}")
+        if problems:
+            res.violation(f"package-exports:{pkg_name}", f"{pkg_name}: " + "; ".join(problems[:3]), {"package": pkg_name, "problems": problems})
+        else:
+            ok("version-package-exports-its-own-top-level-classes")
     for m in walk.modules():
         res.count("modules")
         tops = walk.top_level(m)
